@@ -28,9 +28,39 @@ def i1_next_fold_agree(prog):
     if nx is None or fd is None:
         r.viol('I1', 'missing', '-', 'Iter::next / Iter::fold not found')
         return r
+    def helpers_of(f):
+        # the method, its closures, and the methods of the same impl it calls or hands on as function items
+        # (a shared per-archetype step extracted from next and fold), transitively
+        seen, todo = {}, [f]
+        while todo:
+            g = todo.pop()
+            if g.dp in seen:
+                continue
+            seen[g.dp] = g
+            todo += g.closures()
+            refs = set()
+
+            def walk(x):
+                if isinstance(x, dict):
+                    if 'fn' in x and isinstance(x['fn'], dict) and x['fn'].get('dp'):
+                        refs.add((x['fn'].get('res') or x['fn']).get('dp') or x['fn']['dp'])
+                    if x.get('k') in ('call', 'tailcall') and isinstance(x.get('f'), dict) and x['f'].get('dp'):
+                        refs.add((x['f'].get('res') or x['f']).get('dp'))
+                    for v in x.values():
+                        walk(v)
+                elif isinstance(x, list):
+                    for v in x:
+                        walk(v)
+            walk(g.d['mir'])
+            for dp in refs:
+                h = prog.fns.get(dp)
+                if h is not None and h.impl is not None and f.impl is not None and is_adt(h.impl['self'], 'query::result::iter::Iter') and h.name not in ('next', 'fold'):
+                    todo.append(h)
+        return list(seen.values())
+
     def sig(f):
         filt, views = set(), set()
-        for g in [f] + f.closures():
+        for g in helpers_of(f):
             for b, t in g.body.calls(lambda c: c['name'] == 'filter' and 'contains::filter' in c['path']):
                 filt.add(garg_strs(t))
             for b, t in g.body.calls(lambda c: c['name'] == 'view' and c['path'].startswith('archetype::Archetype')):
@@ -610,7 +640,7 @@ def c9f_results_folder(prog):
     return r
 
 
-@rule('I3', props=['C03', 'C09', 'C05', 'C08'], floor={'all': 3, 'default': 2}, configs=('all', 'default'))
+@rule('I3', props=['C03', 'C09', 'C05', 'C08'], floor={'all': 2, 'default': 1}, configs=('all', 'default'))
 def i3_result_selection(prog):
     """Which archetypes a query result draws from is decided by `And<Views, Filter>` and nothing weaker: inside
     every method (and closure) of the query result iterators — sequential Iter, parallel ParIter and its
